@@ -332,6 +332,32 @@ def run(ck, fx, cg, tier):
         printed = {x for s in seq for x in re.findall(r"\{(\w+)\}", s)}
         missing = [f for f in fields if f not in printed and f != "labels"]
         ck.ob("R17.sections", "every non-derived field is listed", not missing and bool(fields), loc(b), "Program fields %s; printed %s; `labels` is derived from the code (C03 R3.reload); missing: %s" % (fields, sorted(printed), missing or "none"))
+    # the entry point: whatever index the file names is what the listing shows — on every path of Entry's rendering
+    # exactly the index is written (a path that writes nothing for some *value* of the index — `#0` doubling as "not
+    # set" — makes files whose entry method is that constant list without an entry point)
+    eb = fx.body("<bytecode::program::Entry as std::fmt::Display>::fmt")
+    if ck.anchor("R17.sections", "Display for Entry", eb):
+        ck.fn(eb["path"])
+        from .. import render as _R
+        try:
+            eps = _R.render_paths(fx, eb, [("var", "self"), ("var", "f")], ("var", "f"), no_inline=("ConstantPoolIndex as std::fmt::Display>::fmt",))
+        except Exception as e:  # noqa
+            eps = None
+            ck.ob("R17.sections", "the entry point is listed whatever its index", False, loc(eb), "cannot execute Entry's rendering (unprovable): %s" % str(e)[:160])
+        if eps is not None:
+            def _strip(t):
+                while isinstance(t, tuple) and t and (t[0] == "payload" or (t[0] == "app" and t[1] in ("ref", "deref", "clone", "as_ref") and t[2])):
+                    t = t[1] if t[0] == "payload" else t[2][0]
+                return t
+            idx = ("app", "field", (("var", "self"), ("lit", "0")))
+            bad = []
+            for p_ in eps:
+                segs = p_["segs"]
+                if not (len(segs) == 1 and segs[0][0] == "arg" and _strip(segs[0][1]) == idx and segs[0][3] in ("", None)):
+                    from ..symdbg import fmt_term as _ft
+                    bad.append("when %s the entry renders as %s" % (" and ".join("%s=%s" % (_ft(c)[:70], _ft(v)) for c, v in p_["conds"]) or "always", [x[:2] if x[0] == "lit" else x[0] for x in segs] or "nothing"))
+            ck.ob("R17.sections", "the entry point is listed whatever its index", bool(eps) and not bad, loc(eb),
+                  "every path of the rendering writes exactly the index (%d path(s))" % len(eps) if eps and not bad else "; ".join(bad) or "no path")
     # indices printed, one item per line
     for ty in ("ConstantPool", "Globals", "Code"):
         b = fx.body("<bytecode::program::%s as std::fmt::Display>::fmt" % ty)
